@@ -147,7 +147,8 @@ Definition is_nil (g : gv) : bool :=
   end.
 
 (** helpers.go convertToDecimalIfNumberAndCheck (after the by-Kind repair) *)
-Definition convert_number_check (val : gv) : bool * dec :=
+(** the reflective part of convertToDecimalIfNumberAndCheck *)
+Definition convert_number_check_base (val : gv) : bool * dec :=
   let v := value_of val in
   let v := if is_empty_value v then v else deref1 v in
   match rv_v v, rv_if v with
@@ -156,6 +157,13 @@ Definition convert_number_check (val : gv) : bool * dec :=
   | VFloat _ _ (FFin d), false => (true, d)
   | VFloat _ _ _, false => (false, dzero)
   | _, _ => (false, dzero)
+  end.
+
+(** ... preceded by the type assertion for a non-nil pointer to decimal.Decimal *)
+Definition convert_number_check (val : gv) : bool * dec :=
+  match val with
+  | VPtr (Some (VDec d)) => (true, d)
+  | _ => convert_number_check_base val
   end.
 
 Definition convert_number (val : gv) : gv :=
